@@ -499,6 +499,48 @@ theorem C02_servername_summary (l : List SniSess) :
     obtain ⟨d, r, s2s, k⟩ := x
     cases k <;> simp [sessions, negotiateName, ih]
 
+/-- the model's `Negotiate` is one instance of the parameter -/
+theorem C02_sessions_instance (cap : Option Name) (l : List SniSess) :
+    sessions cap l = sessionsG negotiateName cap l := by
+  induction l generalizing cap with
+  | nil => rfl
+  | cons x rest ih =>
+    obtain ⟨d, r, s2s, k⟩ := x
+    cases k <;> simp [sessions, sessionsG, ih]
+
+/-- **What the server-name clause needs of `Negotiate`, made explicit.**  For ANY `Negotiate`
+(a function from the closure variable and the session's own domain to the closure variable
+afterwards and the server name): if it leaves a nil closure variable nil (`hkeep`) and the default
+configuration names the own domain (`hdef`), then every ClientHello of every session of every
+history over one `StartTLS(nil)` value names that session's own domain.  `hkeep` is the assumption
+about starttls.go; it is tied to the code by the server-name table (all histories of one to three
+sessions, A,B,A included) and the shared-writes fact, not derived. -/
+theorem C02_servername_needs_value_unchanged (f : NameFn)
+    (hkeep : ∀ d, (f none d).1 = none) (hdef : ∀ d, (f none d).2 = .dom d) (l : List SniSess) :
+    sessionsG f none l = l.map fun x => match x.kind with
+      | .p | .x => some (Name.dom x.domain)
+      | _ => none := by
+  induction l with
+  | nil => rfl
+  | cons x rest ih =>
+    obtain ⟨d, r, s2s, k⟩ := x
+    cases k <;> simp [sessionsG, hkeep, hdef, ih]
+
+/-- … and it does need it: with the `Negotiate` of the code before bd73f11 (default configuration
+assigned to the closure variable) the second session of a history offers the first one's domain. -/
+theorem C02_servername_capturing_fails :
+    ¬ ∀ l : List SniSess, sessionsG negotiateNameCapturing none l = l.map fun x => match x.kind with
+      | .p | .x => some (Name.dom x.domain)
+      | _ => none := by
+  intro h
+  have := h [⟨0, 0, false, .p⟩, ⟨1, 1, false, .p⟩]
+  revert this
+  decide
+
+/-- non-vacuity: the model's `Negotiate` meets both hypotheses -/
+example : (∀ d, (negotiateName none d).1 = none) ∧ (∀ d, (negotiateName none d).2 = .dom d) :=
+  ⟨fun _ => rfl, fun _ => rfl⟩
+
 /-- with an explicit configuration every ClientHello names that configuration's server -/
 theorem C02_servername_explicit (l : List SniSess) :
     sessions (some .explicit) l = l.map fun x => match x.kind with
